@@ -11,7 +11,7 @@ leaders as four arbitrary subsets of a 5-user universe.
 import types
 import z3
 
-from symx.core import (SBool, SInt, SSet, sym_set, sym_len, explore,
+from symx.core import (SBool, SInt, SSet, SEnum, sym_set, sym_len, explore,
                        model_value, HarnessError)
 from symx.report import Cex
 from . import common
@@ -164,6 +164,11 @@ def eval_oracle(vals):
 
 def replay(vals):
     """Concrete run of the real code; True iff it disagrees with the oracle."""
+    if isinstance(vals, dict) and 'history' in vals:
+        from . import histcheck
+        return histcheck.replay('C04', vals)
+    if isinstance(vals, dict) and vals.get('kind') == 'github_reviews':
+        return github_concrete([tuple(x) for x in vals['reviews']], vals['order'])
     if isinstance(vals, dict) and vals.get('kind') == 'authoropts':
         from . import authoropts
         return authoropts.replay(vals)
@@ -200,6 +205,99 @@ def _twin(ctx):
     passed = run_real(v, symbolic=True)
     wrong = z3.And(oracle(v), v['crs'] == 0)     # ignores the waiver clause
     return ctx.sat(wrong != z3.BoolVal(passed)) == 'sat'
+
+
+# ---------------------------------------------------------------------------
+# what "approved on the host" / "outstanding change request" mean on GitHub: the real
+# review summarisation (its docstring is the specification: only the last relevant review
+# - APPROVED, DISMISSED, CHANGES_REQUESTED - of each reviewer counts)
+GH_STATES = ['APPROVED', 'CHANGES_REQUESTED', 'COMMENTED', 'DISMISSED']
+GH_USERS = ['Peer-One', 'lead']
+
+
+def github_harness(n):
+    import itertools
+    perms = list(itertools.permutations(range(n)))
+
+    def h(ctx):
+        from bert_e.git_host import github as GH
+        states, authors, revs = [], [], []
+        for i in range(n):
+            st = SEnum.fresh(ctx, 'review_state%d' % i, GH_STATES)
+            a = ctx.choose('review_author%d' % i, len(GH_USERS))
+            r = GH.Review.__new__(GH.Review)
+            r.data = {'id': 100 + i, 'state': st, 'user': {'login': GH_USERS[a]}}
+            states.append(st)
+            authors.append(a)
+            revs.append(r)
+        order = perms[ctx.choose('api_order', len(perms))]
+        pr = GH.PullRequest.__new__(GH.PullRequest)
+        pr._reviews = [revs[k] for k in order]
+        approvals = set(pr.get_approvals())
+        changes = set(pr.get_change_requests())
+        conds = []
+        for u, name in enumerate(GH_USERS):
+            mine = [i for i in range(n) if authors[i] == u]
+            # last review of that user (timeline order = id order) that is not a plain comment
+            appr = z3.BoolVal(False)
+            chg = z3.BoolVal(False)
+            for i in mine:
+                later_silent = z3.And(*[states[j].t == GH_STATES.index('COMMENTED') for j in mine if j > i])
+                appr = z3.Or(appr, z3.And(states[i].t == GH_STATES.index('APPROVED'), later_silent))
+                chg = z3.Or(chg, z3.And(states[i].t == GH_STATES.index('CHANGES_REQUESTED'), later_silent))
+            conds.append(('github: %s counted as approver' % name, z3.BoolVal(name.lower() in approvals) == appr))
+            conds.append(('github: %s counted as change requester' % name, z3.BoolVal(name.lower() in changes) == chg))
+        ctx.stats.obligations += len(conds)
+        r_, m = ctx.sat_model(z3.Not(z3.And(*[c for _, c in conds])))
+        if r_ == 'sat':
+            lab = [l for l, c in conds if z3.is_false(m.eval(c, model_completion=True))][0]
+            return dict(bad=lab, reviews=[(GH_USERS[authors[i]], GH_STATES[model_value(m, states[i].t)]) for i in range(n)],
+                        order=list(order))
+        return dict(bad=None)
+    return h
+
+
+def github_concrete(reviews, order):
+    from bert_e.git_host import github as GH
+    revs = []
+    for i, (a, st) in enumerate(reviews):
+        r = GH.Review.__new__(GH.Review)
+        r.data = {'id': 100 + i, 'state': st, 'user': {'login': a}}
+        revs.append(r)
+    pr = GH.PullRequest.__new__(GH.PullRequest)
+    pr._reviews = [revs[k] for k in order]
+    got = (sorted(pr.get_approvals()), sorted(pr.get_change_requests()))
+    exp_a, exp_c = [], []
+    for name in GH_USERS:
+        mine = [st for (a, st) in reviews if a == name and st != 'COMMENTED']
+        if mine and mine[-1] == 'APPROVED':
+            exp_a.append(name.lower())
+        if mine and mine[-1] == 'CHANGES_REQUESTED':
+            exp_c.append(name.lower())
+    return got != (sorted(exp_a), sorted(exp_c))
+
+
+def _gh_explore(n):
+    results, st = explore(github_harness(n), max_depth=400)
+    return results, st.as_dict()
+
+
+def github_part(rep):
+    rep.functions_encoded += ['git_host.github.PullRequest.get_summarized_reviews/get_approvals/get_change_requests/'
+                              'get_participants', 'git_host.github.Review.approved/commented/changes_requested']
+    nmax = 3 if rep.tier == 'quick' else 4
+    rep.bounds['github reviews'] = dict(reviews='1..%d' % nmax, reviewers=GH_USERS, states=GH_STATES,
+                                        api_order='every permutation')
+    for (results, st), n in zip(common.pmap(_gh_explore, list(range(1, nmax + 1))), range(1, nmax + 1)):
+        rep.add_stats(st, 'github review summarisation, %d reviews' % n)
+        seen = set()
+        for _, r in results:
+            if r['bad'] and r['bad'] not in seen:
+                seen.add(r['bad'])
+                data = dict(kind='github_reviews', reviews=r['reviews'], order=r['order'])
+                rep.cexs.append(Cex('C04', 'github review summarisation: the last relevant review of a reviewer does not decide',
+                                    data, github_concrete(r['reviews'], r['order']),
+                                    '%s with reviews %r (API order %r)' % (r['bad'], r['reviews'], r['order'])))
 
 
 def check(rep):
@@ -277,4 +375,8 @@ def check(rep):
     # the per-author settings as a source of these bypasses (real loader + accessors)
     from . import authoropts
     authoropts.check(rep, 'C04', ['bypass_author_approval', 'bypass_peer_approval', 'bypass_leader_approval'])
+    github_part(rep)
+    # the gate over a sequence of jobs on one server (per-author options are shared state)
+    from . import histcheck
+    histcheck.check(rep, 'C04')
 
